@@ -514,13 +514,13 @@ Lemma unforced_lazy_generator_source (sc sc' : schema Nm) (R rows : list row) (c
   lazy_result V dflt Nm nmeqb sc c R = Some (sc', rows) ->
   materialises V Nm o = true ->
   exists st x,
-    hrun false (hstart V Nm [mkHI sc R true] (mkHS [] []))
+    hrun false (hstart V Nm [mkHI sc R KGen] (mkHS [] []))
          [mkHStep 0 (HOp c); mkHStep 0 (HOp o); mkHStep 1 HList; mkHStep 0 HList]
     = (st, [HNew [names sc']; x; HVal (ORows rows); HVal (ORows R)]).
 Proof.
   intros Hc Hm.
   unfold materialises in Hm. apply andb_true_iff in Hm as [Hobs Hcons]. apply negb_true_iff in Hcons.
-  cbn [hstart i_gen i_sch i_rows henv hheap app length C03_Heap.hrun].
+  cbn [hstart i_kind i_sch i_rows henv hheap app length C03_Heap.hrun].
   destruct (hstep_lazy (mkHS [mkH sc (RG 0)] [GRows R]) 0 0 sc sc' (RG 0) c R rows Hc eq_refl eq_refl) as (G & E & Hlate).
   rewrite E. cbn [henv hheap app length].
   (* the observation *)
@@ -552,7 +552,7 @@ Lemma unforced_lazy_of_lazy_intermediate (sc sc0 sc1 sc2 : schema Nm) (R M L1 L2
   lazy_result V dflt Nm nmeqb sc0 c2 M = Some (sc2, L2) ->
   materialises V Nm o = true ->
   exists st x,
-    hrun false (hstart V Nm [mkHI sc R false] (mkHS [] []))
+    hrun false (hstart V Nm [mkHI sc R KList] (mkHS [] []))
       [mkHStep 0 (HOp c0); mkHStep 1 (HOp c1); mkHStep 1 (HOp c2);
        mkHStep 1 (HOp o); mkHStep 2 HList; mkHStep 3 HList; mkHStep 1 HList; mkHStep 0 HList]
     = (st, [HNew [names sc0]; HNew [names sc1]; HNew [names sc2]; x;
@@ -562,7 +562,7 @@ Proof.
   unfold materialises in Hm. apply andb_true_iff in Hm as [Hobs Hcons]. apply negb_true_iff in Hcons.
   set (base := mkH sc (RL R) : hframe). set (mid := mkH sc0 (RG 0) : hframe). set (midL := mkH sc0 (RL M) : hframe).
   set (left := mkH sc1 (RG 1) : hframe). set (right := mkH sc2 (RG 2) : hframe).
-  cbn [hstart i_gen i_sch i_rows henv hheap app length C03_Heap.hrun]. fold base.
+  cbn [hstart i_kind i_sch i_rows henv hheap app length C03_Heap.hrun]. fold base.
   destruct (hstep_lazy (mkHS [base] []) 0 0 sc sc0 (RL R) c0 R M H0 eq_refl eq_refl) as (G0 & E0 & Late0).
   rewrite E0. cbn [henv hheap app length]. fold mid.
   destruct (hstep_lazy (mkHS [base; mid] [G0]) 1 1 sc0 sc1 (RG 0) c1 M L1 H1 eq_refl eq_refl) as (G1 & E1 & Late1).
@@ -602,11 +602,11 @@ Lemma unforced_child_of_list (sc sc' : schema Nm) (R rows : list row) (c o : op 
   lazy_result V dflt Nm nmeqb sc c R = Some (sc', rows) ->
   observes V Nm o = true ->
   exists st x,
-    hrun false (hstart V Nm [mkHI sc R false] (mkHS [] []))
+    hrun false (hstart V Nm [mkHI sc R KList] (mkHS [] []))
          [mkHStep 0 (HOp c); mkHStep 0 (HOp o); mkHStep 1 HList; mkHStep 0 HList]
     = (st, [HNew [names sc']; x; HVal (ORows rows); HVal (ORows R)]).
 Proof.
-  intros Hc Hobs. cbn [hstart i_gen i_sch i_rows henv hheap app length].
+  intros Hc Hobs. cbn [hstart i_kind i_sch i_rows henv hheap app length].
   rewrite hrun_cons.
   destruct (hstep_lazy (mkHS [mkH sc (RL R)] []) 0 0 sc sc' (RL R) c R rows Hc eq_refl eq_refl) as (G & E & Hlate).
   rewrite E. cbn [henv hheap app length].
@@ -631,18 +631,22 @@ Lemma hmat_keeps (st : hstate) (j i : nat) (sc : schema Nm) (l : list row) :
   nth_error (henv (fst (hmat st j))) i = Some (mkH sc (RL l)).
 Proof.
   intros H. unfold C03_Heap.hmat. destruct (nth_error (henv st) j) as [f|] eqn:E; [|exact H].
-  destruct (hrows f) as [l'|g] eqn:Er; [exact H|].
-  destruct (gdrain V dflt Nm (hfuel V Nm st) (hfuel V Nm st) (henv st) (hheap st) g) as [h1 rows].
-  cbn [fst henv]. unfold set_rows. rewrite E.
-  destruct (Nat.eq_dec j i) as [->|N].
-  - rewrite H in E. inversion E; subst f. discriminate Er.
-  - now rewrite nth_error_upd_neq.
+  destruct (hrows f) as [l'|g|l'] eqn:Er; [exact H| |].
+  - destruct (gdrain V dflt Nm (hfuel V Nm st) (hfuel V Nm st) (henv st) (hheap st) g) as [h1 rows].
+    cbn [fst henv]. unfold set_rows. rewrite E.
+    destruct (Nat.eq_dec j i) as [->|N].
+    + rewrite H in E. inversion E; subst f. discriminate Er.
+    + now rewrite nth_error_upd_neq.
+  - cbn [fst henv]. unfold set_rows. rewrite E.
+    destruct (Nat.eq_dec j i) as [->|N].
+    + rewrite H in E. inversion E; subst f. discriminate Er.
+    + now rewrite nth_error_upd_neq.
 Qed.
 
 Lemma hconsume_keeps (st : hstate) (j : nat) : henv (fst (hconsume st j)) = henv st.
 Proof.
   unfold C03_Heap.hconsume. destruct (nth_error (henv st) j) as [f|]; [|reflexivity].
-  destruct (hrows f) as [l'|g]; [reflexivity|].
+  destruct (hrows f) as [l'|g|l']; [reflexivity| |reflexivity].
   destruct (gdrain V dflt Nm (hfuel V Nm st) (hfuel V Nm st) (henv st) (hheap st) g) as [h1 rows]. reflexivity.
 Qed.
 
@@ -710,6 +714,42 @@ Proof.
   specialize (IH st1 i sc l K). destruct (hrun early st1 r) as [st2 os]. exact IH.
 Qed.
 
+(* ---------- round 7: a frame whose row container is a tuple (an eager sequence that is not a list) ---------- *)
+Lemma hmat_tuple (st : hstate) (i : nat) (sc : schema Nm) (l : list row) :
+  nth_error (henv st) i = Some (mkH sc (RT l)) -> hmat st i = (now_list V Nm st i sc l, l).
+Proof. intros H. unfold C03_Heap.hmat, now_list. rewrite H. cbn [hrows]. now rewrite (set_rows_at V Nm _ _ _ _ _ H). Qed.
+
+Lemma hconsume_tuple (st : hstate) (i : nat) (sc : schema Nm) (l : list row) :
+  nth_error (henv st) i = Some (mkH sc (RT l)) -> hconsume st i = (st, l).
+Proof. intros H. unfold C03_Heap.hconsume. now rewrite H. Qed.
+
+(* every operator that looks at the rows: the operator of Model/C03.v on the plain list l; the frame is
+   list-backed afterwards unless the operator only iterates (query / distinct / iter) *)
+Lemma hstep_tuple_op (early : bool) (st : hstate) (s i : nat) (o : op V Nm) (sc : schema Nm) (l : list row) :
+  observes V Nm o = true -> Nat.modulo s (length (henv st)) = i ->
+  nth_error (henv st) i = Some (mkH sc (RT l)) ->
+  hstep early st (mkHStep s (HOp o)) =
+  interpret (if consumes V Nm o then st else now_list V Nm st i sc l) (snd (apply_op o (mkF sc (Eager l)))).
+Proof.
+  intros Ho Hi H. rewrite (hstep_generic early st s i o Ho Hi), H. cbn [hsch].
+  destruct (consumes V Nm o); [rewrite (hconsume_tuple st i sc l H)|rewrite (hmat_tuple st i sc l H)]; reflexivity.
+Qed.
+
+(* ... which is what the same call gives on the list-backed frame of the same rows *)
+Lemma hstep_list_op (early : bool) (st : hstate) (s i : nat) (o : op V Nm) (sc : schema Nm) (l : list row) :
+  observes V Nm o = true -> Nat.modulo s (length (henv st)) = i ->
+  nth_error (henv st) i = Some (mkH sc (RL l)) ->
+  hstep early st (mkHStep s (HOp o)) = interpret st (snd (apply_op o (mkF sc (Eager l)))).
+Proof.
+  intros Ho Hi H. rewrite (hstep_generic early st s i o Ho Hi), H. cbn [hsch].
+  destruct (consumes V Nm o); [rewrite (hconsume_list V dflt Nm st i _ l H eq_refl)|rewrite (hmat_list V dflt Nm st i _ l H eq_refl)]; reflexivity.
+Qed.
+
+Lemma hstep_tuple_list (early : bool) (st : hstate) (s i : nat) (sc : schema Nm) (l : list row) :
+  Nat.modulo s (length (henv st)) = i -> nth_error (henv st) i = Some (mkH sc (RT l)) ->
+  hstep early st (mkHStep s HList) = (now_list V Nm st i sc l, HVal (ORows l)).
+Proof. intros Hi H. rewrite (hstep_list early st s i _ Hi H), (hmat_tuple st i sc l H). reflexivity. Qed.
+
 (* ... and listing it at any later point gives those rows *)
 Lemma hrun_then_list (early : bool) (prog : list (hstepd V Nm)) (st : hstate) (i : nat) (sc : schema Nm) (l : list row) :
   nth_error (henv st) i = Some (mkH sc (RL l)) ->
@@ -717,6 +757,200 @@ Lemma hrun_then_list (early : bool) (prog : list (hstepd V Nm)) (st : hstate) (i
 Proof. intros H. eapply hmat_list; [eapply hrun_keeps; eassumption|reflexivity]. Qed.
 
 End Steps.
+
+(* ====================================================================== *)
+(* Round 7: a tuple of rows instead of a list of rows makes no difference  *)
+(* to any object-level program (append, which is not in hrun, aside)       *)
+(* ====================================================================== *)
+Section TupleSim.
+Set Default Proof Using "Type".
+Variable V : Type.
+Variable veqb : V -> V -> bool.
+Variable dflt : V.
+Variable Nm : Type.
+Variable nmeqb : Nm -> Nm -> bool.
+Notation row := (list V).
+Notation hframe := (hframe V Nm).
+Notation gstate := (gstate V).
+Notation hstate := (hstate V Nm).
+
+Lemma iter_of_listed (r : rowsref V) : iter_of V (listed r) = iter_of V r.
+Proof. destruct r; reflexivity. Qed.
+
+Lemma src_iter_listed (env : list hframe) (src : nat) :
+  match nth_error (map listed_frame env) src with Some fr => iter_of V (hrows fr) | None => ILst [] end =
+  match nth_error env src with Some fr => iter_of V (hrows fr) | None => ILst [] end.
+Proof.
+  rewrite nth_error_map. destruct (nth_error env src) as [fr|]; [|reflexivity].
+  cbn [option_map listed_frame hrows]. apply iter_of_listed.
+Qed.
+
+Lemma gnext_listed (f : nat) : forall (env : list hframe) (h : list gstate) (g : nat),
+  gnext V dflt Nm f (map listed_frame env) h g = gnext V dflt Nm f env h g.
+Proof.
+  induction f as [|f IH]; intros env h g; [reflexivity|].
+  cbn [gnext].
+  destruct (nth_error h g) as [[p|src idx|it idx|src m|it m|src idx|it idx i|]|]; rewrite ?src_iter_listed; try reflexivity.
+  - now rewrite IH.
+  - destruct it as [[|r t]|g']; try reflexivity. rewrite IH. reflexivity.
+  - now rewrite IH.
+  - destruct it as [[|r t]|g']; try reflexivity.
+    + destruct m as [|[|] m']; try reflexivity. now rewrite IH.
+    + rewrite IH. destruct (gnext V dflt Nm f env h g') as [h' [r|]]; try reflexivity.
+      destruct m as [|[|] m']; try reflexivity. now rewrite IH.
+  - now rewrite IH.
+  - destruct it as [[|r t]|g']; try reflexivity.
+    + destruct (zmem i idx); try reflexivity. now rewrite IH.
+    + rewrite IH. destruct (gnext V dflt Nm f env h g') as [h' [r|]]; try reflexivity.
+      destruct (zmem i idx); try reflexivity. now rewrite IH.
+Qed.
+
+Lemma gdrain_listed (n f : nat) : forall (env : list hframe) (h : list gstate) (g : nat),
+  gdrain V dflt Nm n f (map listed_frame env) h g = gdrain V dflt Nm n f env h g.
+Proof.
+  induction n as [|n IH]; intros env h g; [reflexivity|].
+  cbn [gdrain]. rewrite gnext_listed. destruct (gnext V dflt Nm f env h g) as [h1 [r|]]; [|reflexivity].
+  now rewrite IH.
+Qed.
+
+Lemma fweight_listed (f : hframe) : fweight V Nm (listed_frame f) = fweight V Nm f.
+Proof. destruct f as [sc [l|g|l]]; reflexivity. Qed.
+
+Lemma hfuel_listed (st : hstate) : hfuel V Nm (listed_st st) = hfuel V Nm st.
+Proof.
+  unfold hfuel, listed_st. cbn [henv hheap]. f_equal. f_equal. f_equal.
+  induction (henv st) as [|f env IH]; [reflexivity|]. cbn [map fold_right]. now rewrite fweight_listed, IH.
+Qed.
+
+Lemma map_upd {A B : Type} (F : A -> B) (i : nat) (x : A) (l : list A) : map F (upd i x l) = upd i (F x) (map F l).
+Proof. revert i; induction l as [|y l IH]; intros [|i]; cbn [upd map]; try reflexivity. now rewrite IH. Qed.
+
+Lemma upd_same {A : Type} (i : nat) (x : A) (l : list A) : nth_error l i = Some x -> upd i x l = l.
+Proof.
+  revert i; induction l as [|y l IH]; intros [|i] H; cbn [upd nth_error] in *; try discriminate.
+  - now inversion H.
+  - now rewrite IH.
+Qed.
+
+Lemma set_rows_listed (i : nat) (l : list row) (env : list hframe) :
+  map listed_frame (set_rows V Nm i (RL l) env) = set_rows V Nm i (RL l) (map listed_frame env).
+Proof.
+  unfold set_rows. rewrite nth_error_map. destruct (nth_error env i) as [f|]; [|reflexivity].
+  cbn [option_map]. now rewrite map_upd.
+Qed.
+
+Lemma hmat_listed (st : hstate) (i : nat) :
+  hmat V dflt Nm (listed_st st) i = (listed_st (fst (hmat V dflt Nm st i)), snd (hmat V dflt Nm st i)).
+Proof.
+  unfold hmat. rewrite hfuel_listed. unfold listed_st. cbn [henv hheap]. rewrite nth_error_map.
+  destruct (nth_error (henv st) i) as [f|] eqn:E; [|reflexivity]. cbn [option_map listed_frame hrows].
+  destruct f as [sc [l|g|l]]; cbn [hrows listed hsch]; [reflexivity| |].
+  - rewrite gdrain_listed.
+    destruct (gdrain V dflt Nm (hfuel V Nm st) (hfuel V Nm st) (henv st) (hheap st) g) as [h1 rows].
+    cbn [fst snd]. unfold listed_st. cbn [henv hheap]. now rewrite set_rows_listed.
+  - cbn [fst snd]. unfold listed_st. cbn [henv hheap]. rewrite set_rows_listed.
+    unfold set_rows. rewrite nth_error_map, E. cbn [option_map listed_frame hsch hrows listed].
+    rewrite upd_same; [reflexivity|]. now rewrite nth_error_map, E.
+Qed.
+
+Lemma hconsume_listed (st : hstate) (i : nat) :
+  hconsume V dflt Nm (listed_st st) i = (listed_st (fst (hconsume V dflt Nm st i)), snd (hconsume V dflt Nm st i)).
+Proof.
+  unfold hconsume. rewrite hfuel_listed. unfold listed_st. cbn [henv hheap]. rewrite nth_error_map.
+  destruct (nth_error (henv st) i) as [f|] eqn:E; [|reflexivity]. cbn [option_map listed_frame hrows].
+  destruct f as [sc [l|g|l]]; cbn [hrows listed hsch]; [reflexivity| |reflexivity].
+  rewrite gdrain_listed.
+  destruct (gdrain V dflt Nm (hfuel V Nm st) (hfuel V Nm st) (henv st) (hheap st) g) as [h1 rows]. reflexivity.
+Qed.
+
+Lemma add_frames_listed (st : hstate) (fs : list hframe) :
+  (forall f, In f fs -> listed_frame f = f) ->
+  add_frames V Nm (listed_st st) fs = (listed_st (fst (add_frames V Nm st fs)), snd (add_frames V Nm st fs)).
+Proof.
+  intros H. unfold add_frames, listed_st. cbn [henv hheap fst snd]. rewrite map_app.
+  replace (map listed_frame fs) with fs; [reflexivity|].
+  induction fs as [|f fs IH]; [reflexivity|]. cbn [map]. rewrite (H f (or_introl eq_refl)). f_equal.
+  apply IH. intros g Hg. apply H. now right.
+Qed.
+
+Lemma interpret_listed (st : hstate) (r : rout V Nm) :
+  interpret V Nm (listed_st st) r = (listed_st (fst (interpret V Nm st r)), snd (interpret V Nm st r)).
+Proof.
+  destruct r as [x|fs|v]; cbn [interpret].
+  - destruct (rb x); try reflexivity. apply add_frames_listed. intros f [<-|[]]. reflexivity.
+  - apply add_frames_listed. intros f Hf. apply in_map_iff in Hf. destruct Hf as (x & <- & _). reflexivity.
+  - reflexivity.
+Qed.
+
+Lemma new_lazy_listed (st : hstate) (sc : schema Nm) (gs : gstate) :
+  new_lazy V Nm (listed_st st) sc gs = (listed_st (fst (new_lazy V Nm st sc gs)), snd (new_lazy V Nm st sc gs)).
+Proof. unfold new_lazy, listed_st. cbn [henv hheap fst snd]. now rewrite map_app. Qed.
+
+
+(* every step of every program: replacing every tuple of rows by the list of the same rows changes
+   no output, and the states stay related the same way *)
+Lemma hstep_listed (early : bool) (st : hstate) (s : hstepd V Nm) :
+  hstep V veqb dflt Nm nmeqb early (listed_st st) s =
+  (listed_st (fst (hstep V veqb dflt Nm nmeqb early st s)), snd (hstep V veqb dflt Nm nmeqb early st s)).
+Proof.
+  destruct s as [src o]. unfold hstep. cbn [h_src h_op].
+  replace (length (henv (listed_st st))) with (length (henv st)) by (unfold listed_st; cbn [henv]; now rewrite map_length).
+  set (i := Nat.modulo src (length (henv st))).
+  replace (nth_error (henv (listed_st st)) i) with (option_map listed_frame (nth_error (henv st) i))
+    by (unfold listed_st; cbn [henv]; now rewrite nth_error_map).
+  destruct (nth_error (henv st) i) as [fr|] eqn:E; cbn [option_map]; [|reflexivity].
+  destruct o as [o| |].
+  - destruct o; cbn [listed_frame hsch hrows];
+      try (rewrite ?iter_of_listed; apply new_lazy_listed);
+      try (destruct (consumes V Nm _) eqn:Ec;
+           [rewrite hconsume_listed; destruct (hconsume V dflt Nm st i) as [st1 rows]
+           |rewrite hmat_listed; destruct (hmat V dflt Nm st i) as [st1 rows]];
+           cbn [fst snd]; apply interpret_listed).
+    + destruct (index_loop Nm nmeqb (names (hsch fr)) attrs []) as [idx|e]; [|reflexivity].
+      rewrite ?iter_of_listed; apply new_lazy_listed.
+    + set (j := Nat.modulo other (length (henv st))).
+      replace (nth_error (henv (listed_st st)) j) with (option_map listed_frame (nth_error (henv st) j))
+        by (unfold listed_st; cbn [henv]; now rewrite nth_error_map).
+      destruct (nth_error (henv st) j) as [fr2|]; cbn [option_map listed_frame hsch]; [|reflexivity].
+      destruct (negb (schema_eqb Nm nmeqb (hsch fr) (hsch fr2))); [reflexivity|].
+      rewrite hmat_listed. destruct (hmat V dflt Nm st i) as [st1 r1]. cbn [fst snd].
+      rewrite hmat_listed. destruct (hmat V dflt Nm st1 j) as [st2 l2]. cbn [fst snd].
+      rewrite hmat_listed. destruct (hmat V dflt Nm st2 i) as [st3 l1]. cbn [fst snd].
+      destruct (code_add V Nm nmeqb (mkF (hsch fr) (Eager l1)) (mkF (hsch fr2) (Eager l2))) as [[a b] [x|e]]; [|reflexivity].
+      apply interpret_listed.
+  - rewrite hmat_listed. destruct (hmat V dflt Nm st i) as [st1 l]. reflexivity.
+  - rewrite hmat_listed. destruct (hmat V dflt Nm st i) as [st1 l]. reflexivity.
+Qed.
+
+Lemma hrun_listed (early : bool) (prog : list (hstepd V Nm)) : forall st : hstate,
+  hrun V veqb dflt Nm nmeqb early (listed_st st) prog =
+  (listed_st (fst (hrun V veqb dflt Nm nmeqb early st prog)), snd (hrun V veqb dflt Nm nmeqb early st prog)).
+Proof.
+  induction prog as [|s r IH]; intros st; [reflexivity|].
+  cbn [hrun]. rewrite hstep_listed. destruct (hstep V veqb dflt Nm nmeqb early st s) as [st1 o]. cbn [fst snd].
+  rewrite IH. destruct (hrun V veqb dflt Nm nmeqb early st1 r) as [st2 os]. reflexivity.
+Qed.
+
+
+Lemma hstart_listed (fs : list (hinit V Nm)) : forall st : hstate,
+  listed_st (hstart V Nm fs st) = hstart V Nm (map as_list_init fs) (listed_st st).
+Proof.
+  induction fs as [|f fs IH]; intros st; [reflexivity|].
+  cbn [hstart map]. rewrite IH. f_equal.
+  destruct f as [sc rows [| |]]; cbn [as_list_init i_kind i_sch i_rows]; unfold listed_st; cbn [henv hheap]; rewrite map_app; try reflexivity.
+  destruct rows; reflexivity.
+Qed.
+
+
+Lemma tuple_programs (early : bool) (fs : list (hinit V Nm)) (prog : list (hstepd V Nm)) :
+  snd (hrun V veqb dflt Nm nmeqb early (hstart V Nm fs (mkHS [] [])) prog) =
+  snd (hrun V veqb dflt Nm nmeqb early (hstart V Nm (map as_list_init fs) (mkHS [] [])) prog).
+Proof.
+  change (mkHS [] []) with (listed_st (V:=V) (Nm:=Nm) (mkHS [] [])) at 2.
+  rewrite <- hstart_listed, hrun_listed. reflexivity.
+Qed.
+
+End TupleSim.
 
 (* ====================================================================== *)
 (* Round 3: the caller's argument objects and append()                     *)
@@ -814,7 +1048,7 @@ Proof.
   - rewrite via_hstep_h. now apply hstep_keeps.
   - specialize (Hnot r eq_refl).
     destruct (nth_error (henv (a_h st)) (Nat.modulo src (length (henv (a_h st))))) as [fr|] eqn:E; [|exact H].
-    destruct (kind (hsch fr)); [|exact H]. destruct (hrows fr) as [l0|g]; [|exact H].
+    destruct (kind (hsch fr)); [|exact H]. destruct (hrows fr) as [l0|g|l0]; [|exact H|exact H].
     cbn [fst a_h henv]. unfold set_rows. rewrite E. now rewrite nth_error_upd_neq.
   - exact H.
 Qed.
